@@ -53,6 +53,20 @@ inductive Key
 
 abbrev Patch := List (Key × Val)
 
+/-- the key a Python name denotes: a data member if it is one of the nine names, else a dynamic attribute -/
+def Key.ofName (s : String) : Key :=
+  match Field.all.find? (fun f => f.name == s) with
+  | some f => .field f
+  | Option.none => .dyn s
+
+/-- Python truthiness (`if not x`) of a value -/
+def Val.truthy : Val → Bool
+  | .none => false
+  | .int n => n != 0
+  | .str s => !s.isEmpty
+  | .addr _ _ => true
+  | .uuid _ => true
+
 /-! ### Python `dict` (insertion ordered) -/
 
 /-- `d[k] = v`: an existing key keeps its position, a new key is appended -/
